@@ -130,6 +130,10 @@ func genC24(rng *rand.Rand, tier string, w *bufio.Writer) {
 		c, _ := compressor.New(compressor.LZ4).Compress(p)
 		d := c[:6]
 		fmt.Fprintf(w, "dec lz4 %s %s %s\n", hex.EncodeToString(p), hex.EncodeToString(d), c24Lib("lz4", d))
+		// a compressed form truncated to nothing, for every algorithm
+		for _, a := range c24Algs {
+			fmt.Fprintf(w, "dec %s %s  %s\n", a, hex.EncodeToString(p), c24Lib(a, nil))
+		}
 		p = []byte("abcdefghijklmnopqrstuvwxyz0123456789")
 		c, _ = compressor.New(compressor.Snappy).Compress(p)
 		d = append([]byte(nil), c...)
@@ -141,6 +145,22 @@ func genC24(rng *rand.Rand, tier string, w *bufio.Writer) {
 		p := c24Payload(rng, max)
 		if rng.Intn(4) == 0 {
 			fmt.Fprintf(w, "rt %s %s\n", a, hex.EncodeToString(p))
+			continue
+		}
+		if rng.Intn(8) == 0 {
+			// batch: compress several values first, decompress afterwards (a compressed form must
+			// stay valid while later values are compressed — same-sized values provoke buffer reuse)
+			k := 2 + rng.Intn(3)
+			fmt.Fprintf(w, "rtb %s", a)
+			for j := 0; j < k; j++ {
+				q := c24Payload(rng, max)
+				if rng.Intn(2) == 0 && len(p) > 0 {
+					q = make([]byte, len(p))
+					rng.Read(q)
+				}
+				fmt.Fprintf(w, " %s", hex.EncodeToString(q))
+			}
+			fmt.Fprintln(w)
 			continue
 		}
 		c, err := compressor.New(c24Type(a)).Compress(p)
@@ -197,6 +217,30 @@ func runC24(in *bufio.Scanner, w *bufio.Writer) {
 			default:
 				fmt.Fprintln(w, "diff")
 			}
+		case f[0] == "rtb" && len(f) >= 3:
+			cp := compressor.New(c24Type(f[1]))
+			var ps, cs [][]byte
+			bad := ""
+			for _, h := range f[2:] {
+				p, _ := hex.DecodeString(h)
+				c, err := cp.Compress(p)
+				if err != nil {
+					bad = "err"
+				}
+				ps, cs = append(ps, p), append(cs, c)
+			}
+			for i := range cs {
+				d, err := cp.Decompress(cs[i])
+				if err != nil {
+					bad = "err"
+				} else if !bytes.Equal(d, ps[i]) {
+					bad = "diff"
+				}
+			}
+			if bad == "" {
+				bad = "ok"
+			}
+			fmt.Fprintln(w, bad)
 		case f[0] == "dec" && len(f) == 5:
 			c, _ := hex.DecodeString(f[3])
 			func() {
